@@ -20,6 +20,7 @@ import (
 	"github.com/arloliu/go-secs/v2/secs2"
 	"github.com/arloliu/go-secs/v2/verifsim/core"
 	"github.com/arloliu/go-secs/v2/verifsim/rig"
+	"github.com/arloliu/go-secs/v2/verifsim/simhook"
 	"github.com/arloliu/go-secs/v2/verifsim/simnet"
 )
 
@@ -62,7 +63,9 @@ type s1Harness struct {
 
 	calls   []*s1Call
 	byTok   map[string]*s1Call
-	wire    map[string][]int // token -> link generations on which its first block was transmitted by the subject
+	wire    map[string][]int // token -> subject generations on which its first block was transmitted
+	genLink []*simnet.Link   // subject generation (1-based index-1) -> the link it adopted
+	lastSt  hsms.ConnState
 	nDone   int
 	stop    bool
 	finished bool
@@ -113,6 +116,27 @@ func buildSECS1() core.BuildFunc {
 		h.sub.OnDeliver = func(m *hsms.DataMessage, ep hsms.SECS2Endpoint) { h.handle(0, m, ep) }
 		h.oth.OnDeliver = func(m *hsms.DataMessage, ep hsms.SECS2Endpoint) { h.handle(1, m, ep) }
 		h.n.Mangle = h.tap
+		// the subject's generations are counted at its NotConnected->NotSelected transitions (exact, via
+		// the atomic-write observer): connections a passive subject accepts only to refuse them (a second
+		// dialer while the line is up) are links, but not generations
+		simhook.Observer = func() {
+			st := h.sub.C.State()
+			if st == h.lastSt {
+				return
+			}
+			if h.lastSt == hsms.NotConnectedState && st != hsms.NotConnectedState {
+				var adopted *simnet.Link
+				for i := len(h.n.Links) - 1; i >= 0; i-- {
+					if c := h.subjectEnd(h.n.Links[i]); c != nil && c.Handed && c.ClosedAt < 0 {
+						adopted = h.n.Links[i]
+
+						break
+					}
+				}
+				h.genLink = append(h.genLink, adopted)
+			}
+			h.lastSt = st
+		}
 		if sc.SubjectActive {
 			h.oth.Open()
 			w.After(2*time.Millisecond, "open-subject", func() { h.sub.Open() })
@@ -134,7 +158,7 @@ func buildSECS1() core.BuildFunc {
 			Final:   h.final,
 			Cleanup: func() { h.stop = true; _ = h.sub.C.Close(); _ = h.oth.C.Close() },
 			Nontrivial: func() bool {
-				return len(h.n.Links) >= 2 && len(h.calls) > 0
+				return len(h.genLink) >= 2 && len(h.calls) > 0
 			},
 		}
 	}
@@ -161,9 +185,9 @@ func (h *s1Harness) tap(p *simnet.Pipe, b []byte) []byte {
 				if j := bytes.LastIndexByte(body[:i], 't'); j >= 0 {
 					tok := string(body[j:i])
 					if c := h.byTok[tok]; c != nil {
-						var gen int
-						fmt.Sscanf(p.Name(), "L%d.", &gen)
-						h.wire[tok] = append(h.wire[tok], gen)
+						var lg int
+						fmt.Sscanf(p.Name(), "L%d.", &lg)
+						h.wire[tok] = append(h.wire[tok], h.genOfLink(lg))
 					}
 				}
 			}
@@ -190,19 +214,34 @@ func (h *s1Harness) handle(side int, m *hsms.DataMessage, ep hsms.SECS2Endpoint)
 	}
 }
 
-func (h *s1Harness) gen() int { return len(h.n.Links) }
+func (h *s1Harness) gen() int { return len(h.genLink) }
 
-// subjectConn returns the subject's end of link generation g (1-based).
-func (h *s1Harness) subjectConn(g int) *simnet.Conn {
-	if g < 1 || g > len(h.n.Links) {
-		return nil
-	}
-	l := h.n.Links[g-1]
+func (h *s1Harness) subjectEnd(l *simnet.Link) *simnet.Conn {
 	if h.sc.SubjectActive {
 		return l.A
 	}
 
 	return l.B
+}
+
+// subjectConn returns the subject's socket of its generation g (1-based).
+func (h *s1Harness) subjectConn(g int) *simnet.Conn {
+	if g < 1 || g > len(h.genLink) || h.genLink[g-1] == nil {
+		return nil
+	}
+
+	return h.subjectEnd(h.genLink[g-1])
+}
+
+// genOfLink maps a link ordinal to the subject generation that adopted it (0 = none).
+func (h *s1Harness) genOfLink(linkGen int) int {
+	for i, l := range h.genLink {
+		if l != nil && l.Gen == linkGen {
+			return i + 1
+		}
+	}
+
+	return 0
 }
 
 func (h *s1Harness) sender(si int) {
